@@ -69,6 +69,32 @@ def t_quantile_model():
                 assert abs(got - want) <= 1e-9 * max(1, abs(want)), (n, q, got, want)
 
 
+def t_groupby_sum_min_count():
+    """group-wise / row-wise sums of symreal data honour min_count exactly as float data does"""
+    from symv.engine import Engine
+    from symv.proxies import numeval, lift, real
+    from symv.symarray import SymArray, cells
+    rnd = random.Random(5)
+    for trial in range(30):
+        n = 6
+        mask = [[rnd.random() < 0.5 for _ in range(n)] for _ in range(2)]
+        vals = [[rnd.uniform(-5, 5) for _ in range(n)] for _ in range(2)]
+        mc = rnd.choice([0, 1, 2])
+        idx = pd.date_range("2021-01-01", periods=n, freq="h")
+
+        def prog():
+            cols = {c: SymArray([float("nan") if mask[k][i] else real(f"{c}{i}") for i in range(n)]) for k, c in enumerate("ab")}
+            df = pd.DataFrame(cols, index=idx)
+            return cells(df.sum(axis=1, min_count=mc)), cells(df["a"].resample("3h").sum(min_count=mc))
+        (path,) = Engine().explore(prog)
+        env = {f"{c}{i}": vals[k][i] for k, c in enumerate("ab") for i in range(n)}
+        fdf = pd.DataFrame({c: [np.nan if mask[k][i] else vals[k][i] for i in range(n)] for k, c in enumerate("ab")}, index=idx)
+        want = list(fdf.sum(axis=1, min_count=mc)) + list(fdf["a"].resample("3h").sum(min_count=mc))
+        got = [x if isinstance(x, float) else numeval(z3.simplify(lift(x)), env) for part in path.value for x in part]
+        for g, w in zip(got, want):
+            assert (g != g and w != w) or abs(g - w) < 1e-9, (trial, mc, got, want)
+
+
 def t_symarray_reductions():
     from symv.engine import Engine
     from symv.proxies import numeval, lift, real, NAN
@@ -123,7 +149,7 @@ def t_symtime_nearest():
 
 
 def main():
-    tests = [t_dfs_completeness, t_proxies_vs_floats, t_quantile_model, t_symarray_reductions, t_exp_axioms_sound, t_symtime_nearest]
+    tests = [t_dfs_completeness, t_proxies_vs_floats, t_quantile_model, t_symarray_reductions, t_groupby_sum_min_count, t_exp_axioms_sound, t_symtime_nearest]
     bad = 0
     for t in tests:
         try:
